@@ -106,4 +106,31 @@ def isNumbered : Op → Bool
   | .numbered _ => true
   | _ => false
 
+/-! ### several jobs in one directory
+
+Other jobs' label files make *their* labels referable; the job's own file from an earlier run is
+not an input of the current run.  A label written in the document always means the document's object. -/
+
+/-- the entries a run of `job` may see: those of the other jobs -/
+def foreignEntries (job : Nat) (files : List PauxFile) : List Entry :=
+  (files.filter (fun f => f.job ≠ job)).flatMap PauxFile.entries
+
+def resolveSpecX (job : Nat) (files : List PauxFile) (h : List Op) (l : Label) : Resolution :=
+  if l ∈ labelNames h then resolveSpec h l
+  else match (foreignEntries job files).find? (fun e => e.lab = l) with
+    | some e => .object e.node
+    | none => .noObject
+
+def numberSpecX (job : Nat) (files : List PauxFile) (h : List Op) (l : Label) : Option Num :=
+  if l ∈ labelNames h then (match attach h l with | some n => numberOf h n | none => none)
+  else ((foreignEntries job files).find? (fun e => e.lab = l)).map Entry.num
+
+/-- the other jobs' labels are pairwise distinct, name distinct objects and are not labels of this document -/
+def ForeignOk (job : Nat) (files : List PauxFile) (h : List Op) : Prop :=
+  ((foreignEntries job files).map Entry.lab).Nodup ∧ ((foreignEntries job files).map Entry.node).Nodup ∧
+  ∀ l ∈ labelNames h, l ∉ (foreignEntries job files).map Entry.lab
+
+instance (job : Nat) (files : List PauxFile) (h : List Op) : Decidable (ForeignOk job files h) := by
+  unfold ForeignOk; infer_instance
+
 end PlasVerif.Spec.Crossref
